@@ -189,10 +189,58 @@ theorem gather_one_per_group (S : Strs) (keys : List Bytes) (rows : List Row) :
 /-- count is the number of solutions in the group. -/
 theorem count_is_length (S : Strs) (fa : Nat → Nat → Nat) (first : Row) (b a : Bytes) (grp : List Row) :
     aggregate S fa first { binding := b, alias := a, op := .count, distinct := false } grp = .ok (.lit (.int grp.length)) := by
-  simp [aggregate]
+  simp [aggregate, aggregateWith]
 
 /-- No solutions, no groups: the result is empty, not a failure. -/
 theorem group_empty (S : Strs) (fa : Nat → Nat → Nat) (st : Stmt) : groupReduce S fa st [] = .ok [] := by
-  simp [groupReduce]
+  simp [groupReduce, groupReduceWith]
+
+/-! ### int64 sums -/
+
+theorem foldl_add (xs : List Int) (acc : Int) : xs.foldl (· + ·) acc = acc + xs.foldl (· + ·) 0 := by
+  induction xs generalizing acc with
+  | nil => simp
+  | cons x xs ih => simp only [List.foldl_cons]; rw [ih (acc + x), ih (0 + x)]; omega
+
+theorem sumFrom_ok (xs : List Int) : ∀ (acc v : Int),
+    xs.foldlM (fun acc b => if inInt64 (acc + b) then Except.ok (acc + b) else Except.error QErr.sumOverflow) acc = .ok v →
+    v = acc + xs.foldl (· + ·) 0 := by
+  induction xs with
+  | nil => intro acc v h; simp only [List.foldlM_nil, pure, Except.pure, Except.ok.injEq] at h; simp [h]
+  | cons x xs ih =>
+    intro acc v h
+    simp only [List.foldlM_cons, bind, Except.bind] at h
+    by_cases hr : inInt64 (acc + x) = true
+    · simp only [hr, if_true] at h
+      have := ih (acc + x) v h
+      rw [this, List.foldl_cons, foldl_add xs (0 + x)]; omega
+    · simp only [hr, Bool.false_eq_true, if_false] at h
+      cases h
+
+/-- The engine's int64 sum: whenever it answers, the answer is the arithmetic sum. -/
+theorem sumEngine_ok (xs : List Int) (v : Int) (h : sumEngine xs = .ok v) : v = xs.foldl (· + ·) 0 := by
+  have := sumFrom_ok xs 0 v h
+  omega
+
+/-- … and it answers whenever no order of the values can leave int64 (the sum of the positive values and the
+    sum of the negative values are both int64). -/
+theorem sumFrom_defined (xs : List Int) : ∀ (acc : Int),
+    (∀ pre, pre <+: xs → inInt64 (acc + pre.foldl (· + ·) 0) = true) →
+    xs.foldlM (fun acc b => if inInt64 (acc + b) then Except.ok (acc + b) else Except.error QErr.sumOverflow) acc =
+      .ok (acc + xs.foldl (· + ·) 0) := by
+  induction xs with
+  | nil => intro acc _; simp [pure, Except.pure]
+  | cons x xs ih =>
+    intro acc h
+    have h1 : inInt64 (acc + x) = true := by
+      have := h [x] (by simp)
+      simpa using this
+    simp only [List.foldlM_cons, bind, Except.bind, h1, if_true]
+    rw [ih (acc + x)]
+    · rw [List.foldl_cons, foldl_add xs (0 + x)]; congr 1; omega
+    · intro pre hp
+      have := h (x :: pre) (by simpa using hp)
+      rw [List.foldl_cons, foldl_add pre (0 + x)] at this
+      rw [← this]; congr 1; omega
 
 end BW.Proofs.QueryPost
